@@ -153,6 +153,7 @@ pub fn gen_reg(r: &mut Rng, rp: u8) -> RegSpec {
         },
         prf: None,
         prf_hashed: None,
+        misc: if r.bool() { r.next_u64() } else { 0 },
     }
 }
 
@@ -165,6 +166,7 @@ pub fn gen_auth(r: &mut Rng, rp: u8) -> AuthSpec {
         cdata: gen_cdata(r),
         prf: None,
         prf_hashed: None,
+        misc: if r.bool() { r.next_u64() } else { 0 },
     }
 }
 
